@@ -278,7 +278,8 @@ def HalfSpace3.castRayAndGetNormal (s : HalfSpace3 K) (m : Iso3 K) (ray : Ray3 K
 
 /-! ## Triangle, 3-D (`ray_triangle.rs`) -/
 
-/-- `local_ray_intersection_with_triangle(a, b, c, ray) -> Option<(RayIntersection, barycentric)>` -/
+/-- `local_ray_intersection_with_triangle(a, b, c, ray) -> Option<(RayIntersection, barycentric)>`
+(branch selection corrected, see the comment inside) -/
 def localRayIntersectionWithTriangle (a b c : V3 K) (ray : Ray3 K) : Option (Hit3 K × V3 K) :=
   let ab := b.sub a
   let ac := c.sub a
@@ -291,7 +292,10 @@ def localRayIntersectionWithTriangle (a b c : V3 K) (ray : Ray3 K) : Option (Hit
   let fid : Nat := if d < 0 then 0 else 1
   let d := nabs d
   let e := (ray.d.cross ap).neg
-  if t < 0 then
+  -- **corrected behaviour** (fixes/C04-triangle-origin-on-plane.diff): the pinned tree branches on `t < 0.0`, which
+  -- sends a ray starting exactly in the triangle's plane (`t == 0`) with `d > 0` to the formulas meant for `d < 0`
+  -- (barycentric coordinates with the wrong sign ⇒ `None`).  The branch that matches the formulas is the sign of `d`.
+  if fid = 1 then
     let v := -(ac.dot e)
     if v < 0 ∨ d < v then none else
     let w := ab.dot e
